@@ -90,6 +90,21 @@ def main():
     timeout_ms = '10000' if tier == 'quick' else '30000'
     os.environ['PYVC_Z3_TIMEOUT_MS'] = timeout_ms
     results = run_many(sorted(mine), timeout=900 if tier == 'quick' else 3600) if mine else []
+    # budgets are wall-clock: an obligation the ledger lists as discharged that is not discharged now (or a worker that timed
+    # out) is retried once, alone on the machine and with four times the budget, before anything is concluded from it
+    retry = []
+    for r in results:
+        led = ledger.get(r['fid'], {})
+        lost = [o for o in r.get('obligations', []) if o['verdict'] not in ('proved', 'proved-outside-known', 'refuted')
+                and group_of(o) in led.get('groups_proved', [])]
+        if (lost or r.get('status') == 'TIMEOUT') and led and not a.update_ledger:
+            retry.append(r['fid'])
+    if retry:
+        os.environ['PYVC_Z3_TIMEOUT_MS'] = str(int(timeout_ms) * 4)
+        again = {r['fid']: r for r in run_many(retry, jobs=2, timeout=3600)}
+        os.environ['PYVC_Z3_TIMEOUT_MS'] = timeout_ms
+        results = [again.get(r['fid'], r) if again.get(r['fid'], {}).get('status') == 'OK' else r for r in results]
+        lines.append(f'RETRIED with 4x budget: {", ".join(x.split(":")[-1] for x in retry)}')
     fn_rows = []
     n_obl = n_proved = n_known = 0
     solver_time = 0.0
@@ -400,10 +415,10 @@ EXPLAIN = {
     'C01': 'Quoting lemma of the UVL writer proved for all strings; writer purity; the round trip itself is bounded.',
     'C02': 'The model-side mutators used by every reader are proved (owner adoption, exact growth of the lists, frames); reader walks are bounded.',
     'C04': 'set_parse_tree cannot return normally with a recorded syntax error (proved); the parse-tree walk is bounded against an independent emitter.',
-    'C05': 'unquote(safename(s)) == s proved for every string; writer purity; the round trip itself is bounded.',
+    'C05': 'unquote(safename(s)) == s for every string; constraint walks of writer and reader proved against enc / dec with the round-trip theorem by structural induction; writer purity; the feature tree walks are bounded.',
     'C06': 'Writer purity proved; the AFM round trip is bounded.',
-    'C07': 'Writer purity proved; the FeatureIDE round trip is bounded.',
-    'C08': 'Writer purity proved; the Glencoe round trip is bounded.',
+    'C07': 'Writer purity, writer stage 1 (tree -> rule dicts) and the reader of rule elements are proved against the denotation of the format; stage 2 (dicts -> XML elements) and the feature tree are bounded.',
+    'C08': 'Writer purity and the constraint walks of writer and reader are proved against the denotation of the format, with the round-trip theorem over the two contracts; the feature tree walks are bounded.',
     'C09': 'FeatureIDE constraint elements are read with the truth value the format defines (proved for every element tree); the feature-tree walks of the four readers are bounded against independent emitters.',
     'C10': 'Purity of both exports proved (CNF chain proved under C18); the denotation of the exports is decided by independent interpreters (bounded).',
     'C11': 'Writer purity proved; the denotation of the Clafer export is decided by an independent interpreter (bounded).',
